@@ -5,6 +5,8 @@ import (
 	"sort"
 	"strings"
 
+	"golang.org/x/tools/go/ssa"
+
 	"pv/absint"
 	"pv/core"
 )
@@ -50,5 +52,41 @@ func DebugExec(p *core.Program, rel, name string) {
 	}
 	for k, v := range in.Notes {
 		fmt.Printf("note x%d %s\n", v, k)
+	}
+}
+
+// DebugGuards prints, for every call site in the function, the conditions it is control dependent on.
+func DebugGuards(p *core.Program, rel, name string) {
+	fn := p.Func(rel, name)
+	if i := strings.Index(name, "."); i > 0 {
+		fn = p.Method(rel, name[:i], name[i+1:])
+	}
+	if fn == nil {
+		fmt.Println("not found")
+		return
+	}
+	fns := []*ssa.Function{fn}
+	fns = append(fns, fn.AnonFuncs...)
+	for _, f := range fns {
+		core.EachInstr(f, func(i ssa.Instruction) {
+			switch t := i.(type) {
+			case ssa.CallInstruction:
+				fmt.Printf("%s %s\n    args: ", p.Pos(core.PosOf(i)), shortCallee(t))
+				for _, a := range t.Common().Args {
+					fmt.Printf("[%s] ", norm(a))
+				}
+				fmt.Printf("\n    guards: %s\n", guardTexts(guardsOf(i)))
+			case *ssa.Store:
+				fmt.Printf("%s store %s = %s\n    guards: %s\n", p.Pos(core.PosOf(i)), norm(t.Addr), norm(t.Val), guardTexts(guardsOf(i)))
+			case *ssa.MapUpdate:
+				fmt.Printf("%s mapupdate %s[%s] = %s\n    guards: %s\n", p.Pos(core.PosOf(i)), norm(t.Map), norm(t.Key), norm(t.Value), guardTexts(guardsOf(i)))
+			case *ssa.Return:
+				var rs []string
+				for _, r := range t.Results {
+					rs = append(rs, norm(r))
+				}
+				fmt.Printf("%s return %s\n    guards: %s\n", p.Pos(core.PosOf(i)), strings.Join(rs, ", "), guardTexts(guardsOf(i)))
+			}
+		})
 	}
 }
